@@ -291,7 +291,7 @@ func TestVerif_C03(t *testing.T) {
 		return map[string]any{"len": len(c.X), "limit": c.Limit, "x": vfQ(c.X[:min(len(c.X), 90)]), "exts": c.Exts, "path": vfChainStr(vfDetectAt(c.X, c.Limit))}
 	}
 	if vfOnlySub("builtin") {
-		vfRun(t, vfSub[c03Case]{Prop: "C03", Name: "builtin", Checks: vfN(80000, 5000000), Sample: sample, Check: c03Check,
+		vfRun(t, vfSub[c03Case]{Prop: "C03", Name: "builtin", Checks: vfN(80000, 16000000), Sample: sample, Check: c03Check,
 			Gen: func(t *rapid.T) c03Case {
 				x := c03GenInput(t)
 				return c03Case{X: x, Limit: vfGenLimit(t, len(x))}
@@ -301,7 +301,7 @@ func TestVerif_C03(t *testing.T) {
 		return
 	}
 	if vfOnlySub("extended") {
-		vfRun(t, vfSub[c03Case]{Prop: "C03", Name: "extended", Checks: vfN(30000, 2000000), Sample: sample, Check: c03Check,
+		vfRun(t, vfSub[c03Case]{Prop: "C03", Name: "extended", Checks: vfN(30000, 6000000), Sample: sample, Check: c03Check,
 			Gen: func(t *rapid.T) c03Case {
 				x := c03GenInput(t)
 				if rapid.IntRange(0, 2).Draw(t, "vf") == 0 {
